@@ -16,6 +16,10 @@ impl EventListeners {
 /// any expression that wraps a user closure into the stored function object (Arc::new(f), FnListener::new(..), name.into()):
 /// its value is irrelevant here — the claim is about the OTHER fields of the builder
 #[verifier::external_body] pub fn vx_wrap<T>() -> (r: T) { unimplemented!() }
+/// `Arc::new(x)` of a user closure / object handed to a setter: the stored value is a function of x alone (so "the first one wins" or
+/// "ignored" is visible), nothing else is known about it
+pub uninterp spec fn wrapped<A, T>(a: A) -> T;
+#[verifier::external_body] pub fn vx_wrap_of<A, T>(a: A) -> (r: T) ensures r == wrapped::<A, T>(a) { unimplemented!() }
 
 // ===== time limiter =====
 pub struct FixedTimeout(pub Duration);
@@ -100,15 +104,15 @@ impl<Res> FallbackConfigBuilder<Res> {
             r.handle_predicate == self.handle_predicate && r.event_listeners == self.event_listeners && r.name == self.name,   // #keeps_predicate_and_listeners [C17]
     //@body FallbackConfigBuilder::value file=fbconfig
     pub fn value_fn<F>(self, f: F) -> (r: Self)
-        ensures r.strategy is Some && r.strategy->0 is ValueFn,   // #sets_the_value_fn_strategy [C17]
+        ensures r.strategy == Some(FallbackStrategy::<Res>::ValueFn(wrapped(f))),   // #sets_the_value_fn_strategy [C17]
             r.handle_predicate == self.handle_predicate && r.event_listeners == self.event_listeners && r.name == self.name,   // #keeps_predicate_and_listeners [C17]
     //@body FallbackConfigBuilder::value_fn file=fbconfig
     pub fn from_error<F>(self, f: F) -> (r: Self)
-        ensures r.strategy is Some && r.strategy->0 is FromError,   // #sets_the_from_error_strategy [C17]
+        ensures r.strategy == Some(FallbackStrategy::<Res>::FromError(wrapped(f))),   // #sets_the_from_error_strategy [C17]
             r.handle_predicate == self.handle_predicate && r.event_listeners == self.event_listeners && r.name == self.name,   // #keeps_predicate_and_listeners [C17]
     //@body FallbackConfigBuilder::from_error file=fbconfig
     pub fn from_request_error<F>(self, f: F) -> (r: Self)
-        ensures r.strategy is Some && r.strategy->0 is FromRequestError,   // #sets_the_from_request_error_strategy [C17]
+        ensures r.strategy == Some(FallbackStrategy::<Res>::FromRequestError(wrapped(f))),   // #sets_the_from_request_error_strategy [C17]
             r.handle_predicate == self.handle_predicate && r.event_listeners == self.event_listeners && r.name == self.name,   // #keeps_predicate_and_listeners [C17]
     //@body FallbackConfigBuilder::from_request_error file=fbconfig
     pub fn service<S>(self, service: S) -> (r: Self)
@@ -116,11 +120,11 @@ impl<Res> FallbackConfigBuilder<Res> {
             r.handle_predicate == self.handle_predicate && r.event_listeners == self.event_listeners && r.name == self.name,   // #keeps_predicate_and_listeners [C17]
     //@body FallbackConfigBuilder::service file=fbconfig
     pub fn exception<F>(self, f: F) -> (r: Self)
-        ensures r.strategy is Some && r.strategy->0 is Exception,   // #sets_the_exception_strategy [C17]
+        ensures r.strategy == Some(FallbackStrategy::<Res>::Exception(wrapped(f))),   // #sets_the_exception_strategy [C17]
             r.handle_predicate == self.handle_predicate && r.event_listeners == self.event_listeners && r.name == self.name,   // #keeps_predicate_and_listeners [C17]
     //@body FallbackConfigBuilder::exception file=fbconfig
     pub fn handle<F>(self, predicate: F) -> (r: Self)
-        ensures r.handle_predicate is Some,   // #sets_the_handle_predicate [C17]
+        ensures r.handle_predicate == Some(wrapped::<F, HandlePredicate>(predicate)),   // #the_predicate_in_force_is_the_one_given_last [C17]
             r.strategy == self.strategy && r.event_listeners == self.event_listeners && r.name == self.name,   // #keeps_strategy_and_listeners [C17]
     //@body FallbackConfigBuilder::handle file=fbconfig
     pub fn build(self) -> (r: FallbackLayer<Res>)
